@@ -167,8 +167,11 @@ pub fn check_position_fees(
     collateral_price: &Price<u128>,
     discount: Option<u128>,
     may_be_cleared: bool,
+    charged: bool,
     obs: &mut Obs,
 ) {
+    // `charged == false`: the fees were only computed (direct call, or an insolvent close that stopped before the
+    // fee step), so the lazily evaluated `fee_amount_for_pool()` subtraction never ran.
     let c = &w.cfg.market.order_fee;
     let d = discount.unwrap_or_else(|| cfg_discount(c));
     let of = fees.order_fees();
@@ -217,7 +220,7 @@ pub fn check_position_fees(
     let b = fees.borrowing_fees();
     let want = apply_factor(&bu(*b.fee_amount()), w.cfg.market.borrowing.receiver_factor.0);
     obs.require(
-        bu(*b.fee_amount_for_receiver()) == want && (via == "direct" || b.fee_amount_for_receiver() <= b.fee_amount()),
+        bu(*b.fee_amount_for_receiver()) == want && (!charged || b.fee_amount_for_receiver() <= b.fee_amount()),
         "C02",
         "order_fee_split",
         || format!("part=borrowing,via={via}"),
@@ -248,7 +251,7 @@ pub fn check_position_fees(
             let ok = bu(*l.fee_value()) == want_value
                 && bu(*l.fee_amount()) == want_amount
                 && bu(*l.fee_amount_for_receiver()) == want_receiver
-                && (via == "direct" || l.fee_amount_for_receiver() <= l.fee_amount());
+                && (!charged || l.fee_amount_for_receiver() <= l.fee_amount());
             obs.require(
                 ok,
                 "C02",
@@ -335,7 +338,7 @@ pub fn after_step(w: &World, out: &StepOutcome, obs: &mut Obs) {
         Report::Increase(rep) => {
             let pos = out.pos.map(|i| w.positions[i]).unwrap_or_default();
             let price = *out.prices.collateral_token_price(pos.is_collateral_token_long);
-            check_position_fees("increase", w, rep.fees(), out.req.1, &price, out.order_discount, false, obs);
+            check_position_fees("increase", w, rep.fees(), out.req.1, &price, out.order_discount, false, true, obs);
         }
         Report::Decrease(rep) => {
             let price = *out.prices.collateral_token_price(rep.is_output_token_long());
@@ -347,6 +350,11 @@ pub fn after_step(w: &World, out: &StepOutcome, obs: &mut Obs) {
                 &price,
                 out.order_discount,
                 true,
+                !matches!(
+                    rep.insolvent_close_step(),
+                    Some(gmsol_model::position::InsolventCloseStep::Pnl)
+                        | Some(gmsol_model::position::InsolventCloseStep::Funding)
+                ),
                 obs,
             );
             if out.op == "liquidate" {
@@ -405,7 +413,7 @@ pub fn probe_fees_direct(w: &World, amount: u128, discount: u128, pos: u8, obs: 
         });
         if let Ok(fees) = r {
             obs.probe("c02_position_fees_direct");
-            check_position_fees("direct", w, &fees, p.size_in_usd, &price, None, false, obs);
+            check_position_fees("direct", w, &fees, p.size_in_usd, &price, None, false, false, obs);
         }
     }
 }
